@@ -18,8 +18,8 @@
      otherwise: core <- multi_mode_dot(core, fixed factors); partial_tucker on the other modes with the user initialisation;
                 core <- multi_mode_dot(core, fixed factors, transpose=True)
    The data-dependent convergence test is an explicit decision sequence (one boolean per executed sweep, answer tape). *)
-From Coq Require Import List Arith Bool Lia.
-From TLV Require Import Base.PyList Base.Tensor Model.Structure.
+From Coq Require Import List Arith Bool Lia QArith.
+From TLV Require Import Base.Shape Base.PyList Base.Tensor Model.Structure.
 Import ListNotations.
 Local Open Scope nat_scope.
 
@@ -143,3 +143,47 @@ Definition partial_tucker_random0_old (shape rank modes : list nat) : res (list 
   if negb (length rank =? length modes) then Err
   else if negb (forallb (fun m => m <? length shape) modes) then Err
   else Ok (rank :: pt_random0_factors shape rank modes).
+
+(* ------------------------------------------------------------------ the SVD calls of tensor_train / tensor_ring / tensor_train_matrix *)
+(* one svd_interface call per core but the last: (n_row, n_column, n_eigenvecs) of each call, in order -- compared with the implementation's call log *)
+Fixpoint tt_calls (rk : nat) (shape ranks : list nat) : list (list nat) :=
+  match shape with
+  | [] => []
+  | s :: rest =>
+      match rest with
+      | [] => []
+      | _ :: _ => let cur := Nat.min (Nat.min (rk * s) (prod rest)) (hd 0 ranks) in
+                  [rk * s; prod rest; cur] :: tt_calls cur rest (tl ranks)
+      end
+  end.
+Definition tensor_train_calls (shape : list nat) (spec : rspec) (c : Q) : res (list (list nat)) :=
+  rbind (validate_tt_rank shape spec false RRound true c) (fun rank =>
+  if length shape <=? 1 then Err else Ok (tt_calls (hd 0 rank) shape (tl rank))).
+Fixpoint tr_mid_calls (r0 rk : nat) (shape ranks : list nat) : list (list nat) :=
+  match shape with
+  | [] => []
+  | s :: rest =>
+      match rest with
+      | [] => []
+      | _ :: _ => let cur := Nat.min (Nat.min (rk * s) (prod rest * r0)) (hd 0 ranks) in
+                  [rk * s; prod rest * r0; cur] :: tr_mid_calls r0 cur rest (tl ranks)
+      end
+  end.
+Definition tr_calls (shape rank : list nat) : res (list (list nat)) :=
+  match shape, rank with
+  | s0 :: rest, r0 :: r1 :: rks =>
+      match rest with
+      | [] => Err
+      | _ :: _ => if Nat.min s0 (prod rest) <? r0 * r1 then Err
+                  else Ok ([s0; prod rest; r0 * r1] :: tr_mid_calls r0 r1 rest rks)
+      end
+  | _, _ => Err
+  end.
+Definition tensor_ring_calls (shape : list nat) (spec : rspec) (mode : nat) : res (list (list nat)) :=
+  rbind (validate_tr_rank shape spec RRound) (fun rank =>
+  if length shape <=? mode then Err else tr_calls (rot mode shape) (if mode =? 0 then rank else rot_ring mode rank)).
+Definition tensor_train_matrix_calls (tshape : list nat) (spec : rspec) (c : Q) : res (list (list nat)) :=
+  let n := length tshape / 2 in
+  if negb (n * 2 =? length tshape) then Err
+  else if n =? 1 then Ok []
+  else tensor_train_calls (map (fun p => fst p * snd p) (combine (firstn n tshape) (skipn n tshape))) spec c.
